@@ -16,6 +16,39 @@ build() { # $1 = profile flag(s)
         exit 2
     fi
 }
+# thorough tier of C01 / C17 (fz_chain) and C08 / C15 (fz_nopanic): a fixed-work libFuzzer campaign with the property's oracle
+# inside the target. Prints a VIOLATION line (through `vcheck fuzz-replay`, which also writes the JSON replay) and returns 1 if
+# the campaign found an unlisted failure; timeouts / OOM / build problems are inconclusive (2), never a violation.
+fuzz_campaign() { # $1 = property
+    case "$1" in C01|C17) tgt=fz_chain;; C08|C15) tgt=fz_nopanic;; *) return 0;; esac
+    runs="${VERIF_FUZZ_RUNS:-1500000}"
+    seed="${VERIF_SEED:-20261002}"; case "$1" in C17|C08) seed=$((seed + 1));; esac
+    [ "$seed" -eq 0 ] && seed=1
+    out=$(cd "$H" && cargo +nightly fuzz build "$tgt" 2>&1) || { echo "$out" | tail -n 30 >&2; echo "HARNESS-ERROR: cargo fuzz build failed" >&2; return 2; }
+    corp="$H/fuzz/corpus_tmp.$$"; art="$H/fuzz/artifacts_tmp.$$/"
+    rm -rf "$corp" "$art"; mkdir -p "$corp" "$art"; cp "$H/fuzz/seeds/$tgt/"* "$corp/" 2>/dev/null
+    log=$(cd "$H" && FZ_PROP="$1" cargo +nightly fuzz run "$tgt" "$corp" -- -runs="$runs" -seed="$seed" -max_len=2048 -len_control=0 -timeout=60 -rss_limit_mb=4096 -artifact_prefix="$art" -print_final_stats=1 2>&1)
+    st=$?
+    execs=$(echo "$log" | grep -a -E "stat::number_of_executed_units" | awk '{print $2}')
+    feats=$(echo "$log" | grep -a -E "DONE|cov:" | tail -n 1 | sed 's/.*cov: \([0-9]*\) ft: \([0-9]*\).*/cov=\1 ft=\2/')
+    export VERIF_FUZZ_NOTE="libFuzzer $tgt FZ_PROP=$1: runs=${execs:-?} seed=$seed $feats exit=$st"
+    rc=0
+    if echo "$log" | grep -a -q "FUZZ-VIOLATION"; then
+        echo "$log" | grep -a -A2 "FUZZ-VIOLATION" | head -n 6 >&2
+        a=$(ls "$art"crash-* 2>/dev/null | head -n 1)
+        if [ -n "$a" ]; then
+            keep="$VERIF/replays/fuzz-$1-$(basename "$a")"; mkdir -p "$VERIF/replays"; cp "$a" "$keep"
+            "$H/target/release/vcheck" fuzz-replay "$1" "$keep"; rc=$?
+        else
+            echo "HARNESS-ERROR: fuzz violation without artifact" >&2; rc=2
+        fi
+    elif [ $st -ne 0 ]; then
+        echo "$log" | tail -n 15 >&2
+        echo "INCONCLUSIVE: libFuzzer campaign ended with status $st (timeout / OOM / crash outside the oracle)" >&2; rc=2
+    fi
+    rm -rf "$corp" "$art"
+    return $rc
+}
 needs_relassert() { case "$1" in C15) return 0;; *) return 1;; esac; }
 case "$1" in
     setup)
@@ -36,7 +69,15 @@ case "$1" in
             build "--profile relassert"
             export VCHECK_RELASSERT_BIN="$H/target/relassert/vcheck"
         fi
-        exec "$H/target/release/vcheck" "$1" --tier "$tier"
+        frc=0
+        if [ "$tier" = thorough ]; then
+            export VCHECK_RELASSERT_BIN="$H/target/relassert/vcheck"
+            case "$1" in C01|C08|C15|C17) build "--profile relassert"; fuzz_campaign "$1"; frc=$?;; esac
+        fi
+        "$H/target/release/vcheck" "$1" --tier "$tier"; vrc=$?
+        if [ $vrc -eq 1 ] || [ $frc -eq 1 ]; then exit 1; fi
+        if [ $vrc -ne 0 ]; then exit $vrc; fi
+        exit $frc
         ;;
     *)
         echo "usage: $0 setup | <Cxx> [quick|thorough] | replay <file>" >&2
